@@ -1,5 +1,107 @@
 package main
 
+import (
+	"go/ast"
+	"go/token"
+	"go/types"
+	"strconv"
+)
+
+// mercConstLit: the literal initialiser of an untyped package constant (`const X = 10`).
+func mercConstLit(p *pkg, name string) string {
+	for _, f := range p.files {
+		for _, d := range f.Decls {
+			gd, ok := d.(*ast.GenDecl)
+			if !ok || gd.Tok != token.CONST {
+				continue
+			}
+			for _, sp := range gd.Specs {
+				vs := sp.(*ast.ValueSpec)
+				for i, id := range vs.Names {
+					if id.Name != name || i >= len(vs.Values) {
+						continue
+					}
+					if bl, ok := vs.Values[i].(*ast.BasicLit); ok && bl.Kind == token.INT {
+						return bl.Value
+					}
+					return types.ExprString(vs.Values[i])
+				}
+			}
+		}
+	}
+	return "<not found>"
+}
+
+// mercCalls: calls whose callee text contains one of the filters, in source order, rendered as
+// `callee(args…)`; string-literal arguments are kept, others are printed as written.
+func mercCalls(fd *ast.FuncDecl, filters ...string) []string {
+	if fd == nil {
+		return []string{"<function not found>"}
+	}
+	var out []string
+	ast.Inspect(fd, func(n ast.Node) bool {
+		ce, ok := n.(*ast.CallExpr)
+		if !ok {
+			return true
+		}
+		callee := types.ExprString(ce.Fun)
+		keep := false
+		for _, f := range filters {
+			if len(callee) >= len(f) && containsStr(callee, f) {
+				keep = true
+			}
+		}
+		if !keep {
+			return true
+		}
+		s := callee + "("
+		for i, a := range ce.Args {
+			if i > 0 {
+				s += ", "
+			}
+			if bl, ok := a.(*ast.BasicLit); ok && bl.Kind == token.STRING {
+				u, _ := strconv.Unquote(bl.Value)
+				s += strconv.Quote(u)
+			} else {
+				s += types.ExprString(a)
+			}
+		}
+		out = append(out, s+")")
+		return true
+	})
+	return out
+}
+
+func containsStr(s, sub string) bool {
+	for i := 0; i+len(sub) <= len(s); i++ {
+		if s[i:i+len(sub)] == sub {
+			return true
+		}
+	}
+	return false
+}
+
+// mercAssignsTo: right-hand sides assigned to `lhs` (e.g. "rf.ValidFromTimestamp") in source order
+func mercAssignsTo(fd *ast.FuncDecl, lhs string) []string {
+	if fd == nil {
+		return []string{"<function not found>"}
+	}
+	var out []string
+	ast.Inspect(fd, func(n ast.Node) bool {
+		as, ok := n.(*ast.AssignStmt)
+		if !ok {
+			return true
+		}
+		for i, l := range as.Lhs {
+			if types.ExprString(l) == lhs && i < len(as.Rhs) {
+				out = append(out, types.ExprString(as.Rhs[i]))
+			}
+		}
+		return true
+	})
+	return out
+}
+
 func init() {
 	register(func() {
 		// ---- mercury
@@ -12,10 +114,17 @@ func init() {
 		for _, fn := range []string{"ValidateValidFromTimestamp", "ValidateExpiresAt", "ValidateBetween", "ValidateFee"} {
 			addStrs("mercury_"+fn+"_cmps", merc.comparisons(merc.funcDecl("", fn)), "mercury/validation.go "+fn, "C07")
 		}
+		addStrs("mercury_ValidateFee_calls", mercCalls(merc.funcDecl("", "ValidateFee"), "ValidateBetween"), "mercury/validation.go ValidateFee", "C07")
+		addNat("mercury_EvmHashLen", mercConstLit(merc, "EvmHashLen"), "mercury/validation.go", "C07", "C08")
+		addNat("mercury_ByteWidthInt192", mercConstLit(merc, "ByteWidthInt192"), "mercury/value.go", "C07")
+		addStrs("mercury_MaxInt192_init", mercCalls(merc.funcDecl("", "init"), "Lsh", "Sub"), "mercury/value.go init", "C07")
 		m1 := load("mercury/v1", false)
 		for _, fn := range []string{"GetConsensusLatestBlock", "GetConsensusMaxFinalizedBlockNum"} {
 			addStrs("mercury_v1_"+fn+"_cmps", m1.comparisons(m1.funcDecl("", fn)), "mercury/v1/aggregate_functions.go "+fn, "C08")
 		}
+		addNat("mercury_v1_MaxAllowedBlocks", mercConstLit(m1, "MaxAllowedBlocks"), "mercury/v1/mercury.go", "C08")
+		addStrs("mercury_v1_parse_cmps", m1.comparisons(m1.funcDecl("", "parseAttributedObservation"), "EvmHashLen"), "mercury/v1/mercury.go parseAttributedObservation", "C08")
+		addStrs("mercury_v1_ValidateCurrentBlock_cmps", m1.comparisons(m1.funcDecl("", "ValidateCurrentBlock"), "EvmHashLen"), "mercury/v1/validation.go ValidateCurrentBlock", "C07")
 		m4 := load("mercury/v4", false)
 		addStrs("mercury_v4_GetConsensusMarketStatus_cmps", m4.comparisons(m4.funcDecl("", "GetConsensusMarketStatus")), "mercury/v4/aggregate_functions.go", "C08")
 		for _, v := range []string{"v1", "v2", "v3", "v4"} {
@@ -23,8 +132,23 @@ func init() {
 			if v != "v1" {
 				mp = load("mercury/"+v, false)
 			}
-			addStrs("mercury_"+v+"_Report_cmps", mp.comparisons(mp.funcDecl("reportingPlugin", "Report")), "mercury/"+v+"/mercury.go Report", "C07", "C09")
-			addStrs("mercury_"+v+"_buildReportFields_cmps", mp.comparisons(mp.funcDecl("reportingPlugin", "buildReportFields"), "MaxUint32"), "mercury/"+v+"/mercury.go buildReportFields", "C07", "C09")
+			rep := mp.funcDecl("reportingPlugin", "Report")
+			brf := mp.funcDecl("reportingPlugin", "buildReportFields")
+			addStrs("mercury_"+v+"_Report_cmps", mp.comparisons(rep, "len(report)", "len(paos)"), "mercury/"+v+"/mercury.go Report", "C07", "C09")
+			addStrs("mercury_"+v+"_buildReportFields_cmps", mp.comparisons(brf, "MaxUint32"), "mercury/"+v+"/mercury.go buildReportFields", "C07", "C09")
+			addStrs("mercury_"+v+"_validateReport_calls", mercCalls(mp.funcDecl("reportingPlugin", "validateReport"), "Validate"), "mercury/"+v+"/mercury.go validateReport", "C07")
+			addStrs("mercury_"+v+"_Report_calls", mercCalls(rep, "buildReportFields", "validateReport", "BuildReport", "parseAttributedObservations"), "mercury/"+v+"/mercury.go Report", "C07", "C09")
+			if v == "v1" {
+				addStrs("mercury_v1_validFrom_assigns", mercAssignsTo(brf, "rf.ValidFromBlockNum"), "mercury/v1/mercury.go buildReportFields", "C09")
+			} else {
+				addStrs("mercury_"+v+"_validFrom_assigns", mercAssignsTo(brf, "rf.ValidFromTimestamp"), "mercury/"+v+"/mercury.go buildReportFields", "C09")
+				addStrs("mercury_"+v+"_expiresAt_assigns", mercAssignsTo(brf, "rf.ExpiresAt"), "mercury/"+v+"/mercury.go buildReportFields", "C07")
+				addStrs("mercury_"+v+"_getMFT_cmps", mp.comparisons(mp.funcDecl("parsedAttributedObservation", "GetMaxFinalizedTimestamp")), "mercury/"+v+"/observation.go GetMaxFinalizedTimestamp", "C08", "C09")
+			}
+			if v == "v3" {
+				addStrs("mercury_v3_validatePrices_cmps", mp.comparisons(mp.funcDecl("", "validatePrices")), "mercury/v3/mercury.go validatePrices", "C07")
+				addStrs("mercury_v3_parse_calls", mercCalls(mp.funcDecl("", "parseAttributedObservation"), "validatePrices"), "mercury/v3/mercury.go parseAttributedObservation", "C07")
+			}
 		}
 	})
 }
